@@ -1,14 +1,24 @@
+#include <sstream>
+
 #include <occa/internal/lang/expr/charNode.hpp>
+#include <occa/internal/lang/token/charToken.hpp>
 
 namespace occa {
   namespace lang {
     charNode::charNode(token_t *token_,
                        const std::string &value_) :
       exprNode(token_),
-      value(value_) {}
+      encoding(encodingType::none),
+      value(value_) {
+      // Only the token knows the encoding prefix of the literal: L'a', u'a', U'a'
+      if (token && (token->type() & tokenType::char_)) {
+        encoding = token->to<charToken>().encoding;
+      }
+    }
 
     charNode::charNode(const charNode &node) :
       exprNode(node.token),
+      encoding(node.encoding),
       value(node.value) {}
 
     charNode::~charNode() {}
@@ -18,11 +28,15 @@ namespace occa {
     }
 
     exprNode* charNode::clone() const {
-      return new charNode(token, value);
+      return new charNode(*this);
     }
 
     void charNode::print(printer &pout) const {
-      pout << '\'' << escape(value, '\'') << '\'';
+      // Same text as the char token: encoding prefix
+      std::stringstream ss;
+      io::output out(ss);
+      charToken(fileOrigin(), encoding, value, "").print(out);
+      pout << ss.str();
     }
 
     void charNode::debugPrint(const std::string &prefix) const {
